@@ -40,6 +40,19 @@ Proof. exact check_complete_thm. Qed.
 Theorem wellformed_excludes_violation : forall q f r l, WellFormed q f -> Violates q f r l -> False.
 Proof. exact wellformed_not_violates. Qed.
 
+(* "the first violation" is well defined: at most one (rule, location) satisfies Violates *)
+Theorem violation_unique : forall q f r l r' l', Violates q f r l -> Violates q f r' l' -> r = r' /\ l = l'.
+Proof. exact violation_unique_thm. Qed.
+
+(* UnusedCaptures (variant 10) is reported at the start of the offending stanza and names exactly the
+   captures of its query that must be reported, each once, as "@name" *)
+Theorem unused_names_exact : forall q f l names,
+  check_file q f = CkErr 10 l names ->
+  exists pre st post cnames, f_stanzas f = pre ++ st :: post /\ l = st_start st /\
+    nth_error (qt_stanza_names q) (length pre) = Some cnames /\
+    forall s, In s names <-> exists n, s = 64 :: n /\ unused_capture cnames st n.
+Proof. exact unused_names_exact_thm. Qed.
+
 (* on success nothing but the resolution fields changed (shorthands included: they are not touched),
    and every capture node carries what the tables say for its name *)
 Theorem check_resolves : forall q f f',
